@@ -21,6 +21,7 @@ import (
 	"github.com/Flowpack/prunner/taskctl"
 
 	"verif/internal/payload"
+	"verif/internal/pfield"
 )
 
 // MemStore is an in-memory DataStore that remembers what was saved.
@@ -948,7 +949,7 @@ func (m *Machine) fireTimer(j *JobRec) {
 	if r, _ := m.jobsOf(m.snap, j.Pipeline); len(r) > 0 {
 		m.w.Stats.hit("timer:while-busy")
 	}
-	if !m.w.Call("StartDelayedJob", func() { m.w.PR.StartDelayedJob(j.ID) }) {
+	if !m.w.Call("StartDelayedJob", func() { pfield.FireStartTimer(m.w.PR, j.ID, j.Pipeline) }) {
 		m.blocked()
 	}
 }
